@@ -76,12 +76,17 @@ claim('C07',
       'and each is shown unreachable from the invariant the code relies on (token spans on character boundaries; reduce functions + cst_to_ast '
       'total on derivation trees; FIRST map keys; item rule indices; queue indices; total renumbering; a transition for every shift; '
       'unreachable goto conflict; declared lookaheads; cells in range; declared terminals in the emitter; no unbound hole in the template '
-      'regenerated on this run). Also: the tokenizer has no unbounded loop; the front-end parse loop terminates within a proved bound. '
-      'NOT proved: that the model\'s fuel suffices in the automaton/closure/FIRST loops (the no-hang half there is modelled: OutOfFuel is a '
-      'distinct result that shows up as a disagreement), host stack depth. The crate is run on malformed/unusual/large inputs under '
-      'catch_unwind and in watchdog-guarded child processes, results equal to the model.',
+      'regenerated on this run). AND the never-loops half, for every string (Totality.v): with the fuel of every loop left as a parameter, the '
+      'model returns Ok or Err — neither Panic nor OutOfFuel — for every fuel above an explicit bound computed from the input '
+      '(C07_generate_is_total), and any larger fuel gives the same result (C07_fuel_is_only_a_bound): the tokenizer is structural; the '
+      'front-end parse loop has a checked potential function; every changing pass of the FIRST fixpoint grows a bounded map; every '
+      'closure insertion is a new item of a finite universe; worklist states have pairwise distinct cores (at most 2^|cores| states of '
+      'at most |universe| items) and every re-queueing adds an item; fresh-name candidates are pairwise distinct. The model the check '
+      'runs is the instance with a fixed fuel; an OutOfFuel there shows up as a disagreement. NOT proved: host stack depth, and a '
+      'polynomial running-time bound. The crate is run on malformed/unusual/large inputs under catch_unwind and in watchdog-guarded '
+      'child processes, results equal to the model.',
       COMMON_NOTE + 'Host stack depth and wall-clock time are sampled only.',
-      'Coq proof (stage-by-stage invariants => no Panic, all inputs) + differential fuzzing with panic/abort/hang detection', 'DESIGN.md §5 C07')
+      'Coq proof (stage-by-stage invariants => no Panic; termination measure for every loop => no OutOfFuel; all inputs) + differential fuzzing with panic/abort/hang detection', 'DESIGN.md §5 C07')
 claim('C08',
       'Coq theorem, for EVERY string: tokenize src = spec (S |src|) 0 src (Lex/Spec.v), where spec is the documented lexical rules written as '
       'a maximal-munch scanner that reads one lexeme at a time and shares nothing with the tokenizer\'s character-driven state machine; the '
